@@ -3,7 +3,7 @@ From V.gen Require Consts.
 From V.common Require Import Wire Varint Protobuf.
 From V.C18 Require Model.
 From V.C03 Require Model.
-From V.C19 Require Import Model Proofs MsProofs.
+From V.C19 Require Import Formats Model Utf8Proofs Proofs MsProofs.
 Import ListNotations.
 Open Scope N_scope.
 From V.C19 Require Import Properties.
@@ -146,3 +146,37 @@ Check (C19_roundtrip_prefix :
 Check (C19_prefix_fields_in_range :
   forall b p, prefix_from_bytes b = Some p ->
   px_version p <= 1 /\ px_codec p < 2 ^ 64 /\ px_mh_type p < 2 ^ 64 /\ px_mh_len p < 256).
+Check (C19_utf8_sound_complete :
+  forall l, utf8_ok l = true <-> (exists cps, Forall scalar cps /\ l = flat_map utf8_encode cps)).
+Check (C19_alloc_multihash :
+  forall b code d rest, mh_read b = Some (code, d, rest) ->
+  exists hdr, b = hdr ++ d ++ rest /\ (2 <= length hdr <= 20)%nat /\ (length d <= 64)%nat).
+Check (C19_alloc_cid :
+  forall b c, cid_read b = Some c -> (length c <= length b /\ length c <= 104)%nat).
+Check (C19_maddr_total :
+  forall b, maddr_parse b <> OutOfFuel).
+Check (C19_maddr_fuel_irrelevant :
+  forall b fuel, (length b < fuel)%nat -> maddr_parse_f fuel b = maddr_parse_f (S (length b)) b).
+Check (C19_alloc_maddr :
+  forall b cs, maddr_parse b = Ok cs -> (comps_size cs <= length b)%nat).
+Check (C19_webrtc_frame_bounded :
+  forall b body rest, webrtc_extract b = WfFrame body rest ->
+  blen body <= WEBRTC_MAX_FRAME /\ exists pre, b = pre ++ body ++ rest /\ (1 <= length pre <= 10)%nat).
+Check (C19_webrtc_oversized_rejected_first :
+  forall pre rest, take_varint 10 (pre ++ rest) = Some (pre, rest) -> minimal pre = true ->
+  WEBRTC_MAX_FRAME < value pre mod 2 ^ 64 -> webrtc_extract (pre ++ rest) = WfErr).
+Check (C19_alloc_webrtc_proto :
+  forall b m, dec_wr b = Some m -> (olen (wr_message m) <= length b)%nat).
+Check (C19_roundtrip_webrtc_message :
+  forall payload flag rest,
+  wf_bytes payload -> match flag with Some f => f < 4 | None => True end ->
+  let body := encode_fields (fields_wr (mkWr flag (if is_nil payload then None else Some payload))) in
+  blen body <= WEBRTC_MAX_FRAME ->
+  webrtc_extract (webrtc_encode_message payload flag ++ rest) = WfFrame body rest /\
+  webrtc_message body = Some (if is_nil payload then None else Some payload, flag)).
+Check (C19_yamux_syn_credit_refuted :
+  exists credit, credit < 2 ^ 32 /\ u32_add_checked credit YAMUX_DEFAULT_CREDIT = None /\
+    yamux_syn_credit_overflow 2 [0; 1; 0; 1; 0; 0; 0; 1; 255; 255; 255; 255] = true).
+Check (C19_yamux_syn_credit_partial :
+  forall credit, credit + YAMUX_DEFAULT_CREDIT < 2 ^ 32 ->
+  u32_add_checked credit YAMUX_DEFAULT_CREDIT = Some (credit + YAMUX_DEFAULT_CREDIT)).
